@@ -276,7 +276,10 @@ def match_known(v: Dict[str, Any], known: List[Dict[str, Any]]) -> Optional[Dict
     for k in known:
         if k.get("sub") != v["sub"]:
             continue
-        if k.get("key") != v["key"]:
+        if "key_prefix" in k:
+            if not v["key"].startswith(k["key_prefix"]):
+                continue
+        elif k.get("key") != v["key"]:
             continue
         if "observed" in k and k["observed"] != v["observed"]:
             continue
@@ -305,8 +308,9 @@ def finish(
     for v in acc.violations:
         k = match_known(v, known)
         if k is not None:
-            listed.setdefault((k["sub"], k["key"]), (k, v))
-            listed_n[(k["sub"], k["key"])] += 1
+            kk = k.get("key") or k.get("key_prefix")
+            listed.setdefault((k["sub"], kk), (k, v))
+            listed_n[(k["sub"], kk)] += 1
         else:
             new.append(v)
     for (sub, key), (k, v) in sorted(listed.items()):
@@ -369,6 +373,7 @@ def finish(
         "skipped_by_reason": dict(acc.skipped),
         "known_findings_seen": [f"{s} {k} x{listed_n[(s, k)]}" for (s, k) in sorted(listed)],
         "new_violations_by_subcheck": dict(by_sub),
+        "new_violation_keys": sorted({f"{v['sub']} :: {v['key']}" for v in new})[:600],
         "repo": repo_head(),
         "nproc": NPROC,
         "pythonhashseed": os.environ.get("PYTHONHASHSEED", ""),
